@@ -133,6 +133,83 @@ def tl_correspondence(ctx, rng, n, tag):
     return {"timing_loop_cases": len(exprs), "timing_loop_mismatches": mism, "timing_loop_case_kinds": dist}
 
 
+def f32bits_of_text(t):
+    t = t.strip()
+    if t == "NaN":
+        return 0x7fc00000
+    return bits(float(t))
+
+
+def frontend_correspondence(ctx, rng, n, tag):
+    """The receiver's own front end -- SameReceiver::process: agc.input(dc_block.filter(sample)) -- against the composed model: a real
+    receiver is fed k samples of staircases and zeros (no burst, so the AGC is never locked), its Debug rendering gives the DC blocker's
+    windows, sums and refresh counters and the AGC gain, and the same samples go through dcb_run and agc_run in Coq.  Ties the glue:
+    order of the two calls, the window length computed from the configuration, the AGC parameters derived from the builder."""
+    import importlib, re as _re
+    from concurrent.futures import ThreadPoolExecutor
+    C18 = importlib.import_module("props.C18")
+    C10 = importlib.import_module("props.C10")
+    cases, lines = [], []
+    for _ in range(n):
+        rate = rng.choice([8000, 11025, 16000, 22050, 32000, 44100, 48000, 96000])
+        L = C10.dc_window(rate)
+        segs, xs = [], []
+        for _s in range(rng.range(1, 3)):
+            if rng.chance(3, 4):
+                t = rng.range(2, 30) / 1000.0
+                start = rng.choice([700000, 32000, -20000.5, 1000.25, 3.0]); step = rng.choice([0.5625, 0.03125, 1.0, -2.5, 0.0])
+                ln = rng.choice([L, L, 3, 50])
+                segs.append("R%g:%g:%g:%d" % (t, start, step, ln))
+                xs += [bits(start + step * (i // ln)) for i in range(int(t * rate + 0.5))]
+            else:
+                t = rng.range(1, 10) / 1000.0
+                segs.append("Z%g" % t); xs += [0] * int(t * rate + 0.5)
+        k = rng.range(1, len(xs))
+        extra = rng.choice(["", "", "gmin=0.0000305185 gmax=0.005", "agcbw=0.05", "dclen=1.0", "dclen=0.0"])
+        lines.append(("dbgdump rate=%d amp=1000 dc=0 phase=0 frac=0 baud=0 seed=1 %s script=%s reset_at=%d" % (rate, extra, ",".join(segs), k)).replace("  ", " "))
+        cases.append((rate, L, xs[:k], extra))
+    outs = vlib.run_lines_parallel(vlib.IMPLRUN, lines)
+    exprs, keep = [], []
+    for (rate, L, xs, extra), line, out in zip(cases, lines, outs):
+        d = C18.parse_dump(out)
+        if d is None:
+            ctx.violation("harness-failure", "dbgdump failed: " + out[:200], {"input": line}); continue
+        b = d[0]
+        win = lambda p: [f32bits_of_text(t) for t in _re.search(r"\[\[?([^\[\]]*)\]", b[p]).group(1).split(",") if t.strip()]
+        try:
+            impl = (win("dc_block/ff/window") + [f32bits_of_text(b["dc_block/ff/moving_sum"]), int(b["dc_block/ff/since_refresh"])]
+                    + win("dc_block/fb/window") + [f32bits_of_text(b["dc_block/fb/moving_sum"]), int(b["dc_block/fb/since_refresh"])]
+                    + [f32bits_of_text(b["agc/gain"])])
+        except Exception as e:
+            ctx.violation("harness-failure", "cannot read the front end from the Debug rendering: %r" % e, {"input": line}); continue
+        Lr = len(win("dc_block/ff/window"))
+        bw, lo, hi = (f32bits_of_text(b["agc/bandwidth"]), f32bits_of_text(b["agc/min_gain"]), f32bits_of_text(b["agc/max_gain"]))
+        exprs.append("let '(d, ys) := dcb_run (dcb_new %d) (map of_bits [%s]) in "
+                     "let a := fst (agc_run (mkAgc (of_bits %d) (of_bits %d) (of_bits %d) false (agc_initial_gain (of_bits %d) (of_bits %d))) (map AIn ys)) in "
+                     "map to_bits (m_win (d_ff d)) ++ [to_bits (m_sum (d_ff d)); Z.of_nat (m_since (d_ff d))] ++ "
+                     "map to_bits (m_win (d_fb d)) ++ [to_bits (m_sum (d_fb d)); Z.of_nat (m_since (d_fb d)); to_bits (a_gain a)]"
+                     % (Lr, "; ".join(str(x) for x in xs), bw, lo, hi, lo, hi))
+        keep.append((line, impl, Lr, L, extra))
+    shard = max(1, (len(exprs) + vlib.NCPU - 1) // vlib.NCPU)
+    parts = [exprs[i:i + shard] for i in range(0, len(exprs), shard)]
+    with ThreadPoolExecutor(vlib.NCPU) as ex:
+        res = list(ex.map(lambda p: coq_lists("fe_%s_%d" % (tag, p[0]), HEADER, p[1]), list(enumerate(parts))))
+    model = [r for part in res for r in part]
+    mism, lens_ok = 0, 0
+    for (line, impl, Lr, L, extra), mo in zip(keep, model):
+        if "dclen" not in extra:
+            if Lr == L:
+                lens_ok += 1
+            else:
+                ctx.violation("correspondence", "the DC blocker's window is %d samples, the binary32 size computation says %d: %s" % (Lr, L, line[:120]), {"input": line})
+        if impl != mo:
+            mism += 1
+            k = next((j for j, (a, b_) in enumerate(zip(impl, mo)) if a != b_), None)
+            ctx.violation("correspondence", "the receiver's front end (DC blocker state, AGC gain) differs from the composed binary32 model at field %s: %s"
+                          % (k, line[:140]), {"input": line, "model": mo[:200], "impl": impl[:200]})
+    return {"front_end_cases": len(exprs), "front_end_mismatches": mism, "front_end_window_lengths_confirmed": lens_ok}
+
+
 def coq_lists(name, header, exprs):
     """evaluate Gallina expressions of type list Z inside Coq; returns a list of lists of ints"""
     body = header + "".join("Eval vm_compute in (%s).\n" % e for e in exprs)
